@@ -62,6 +62,7 @@ fn expectation(r: &mut Rng, used: &mut Vec<String>) -> ClaimSpec {
             2 => ClaimSpec::Aud(ascii!(r, 1 + r.usize(8))),
             3 => ClaimSpec::Jti(ascii!(r, 1 + r.usize(8))),
             4 => ClaimSpec::Native { key: (*r.pick(&["uid", "n", "level"])).to_string(), val: NativeVal::I64(r.range(-5, 5) as i64) },
+            6 if r.chance(1, 2) => ClaimSpec::CustomRef { key: (*r.pick(&[" role", "role ", "\trole", "ro le", "\u{a0}k", "k\n"])).to_string(), value: scalar(r) },
             5 => ClaimSpec::Iat(format!("20{:02}-0{}-1{}T0{}:00:00{}", 20 + r.below(10), 1 + r.below(9), r.below(9), r.below(9), *r.pick(&["Z", "+00:00", "-05:00"]))),
             _ => ClaimSpec::Custom { key: (*r.pick(&["role", "scope", "data", "k", "tenant", "Role", "a/b", "a~1b", "https://example.com/claims/seats", "x.y"])).to_string(), value: scalar(r) },
         };
@@ -255,7 +256,14 @@ fn gen(ctx: &GenCtx, i: u64, prop: &str) -> Option<Run> {
             "iss" => ClaimSpec::Iss(String::new()),
             "exp" => ClaimSpec::Exp("2019-01-01T00:00:00+00:00".into()),
             "nbf" => ClaimSpec::Nbf("2019-01-01T00:00:00+00:00".into()),
-            _ => ClaimSpec::Custom { key: keyname.clone(), value: json!("") },
+            _ => ClaimSpec::Custom { key: keyname.clone(), value: match r.below(4) { 0 => json!("good"), 1 => json!(7), _ => json!("") } },
+        };
+        let claim = match (&claim, r.below(3)) {
+            (ClaimSpec::Sub(_), 0) => ClaimSpec::Sub("good".into()),
+            (ClaimSpec::Aud(_), 0) => ClaimSpec::Aud("good".into()),
+            (ClaimSpec::Jti(_), 0) => ClaimSpec::Jti("good".into()),
+            (ClaimSpec::Iss(_), 0) => ClaimSpec::Iss("good".into()),
+            _ => claim,
         };
         let behaviour = match r.below(6) {
             0 => Behaviour::Reject,
@@ -305,8 +313,10 @@ fn gen(ctx: &GenCtx, i: u64, prop: &str) -> Option<Run> {
                 continue;
             }
             if r.chance(2, 3) {
-                let val = match (&vs.behaviour, r.below(3)) {
+                let val = match (&vs.behaviour, r.below(4)) {
                     (Behaviour::ExpectEq(x), 0 | 1) if !x.is_null() => x.clone(),
+                    // the value the registration itself carries as a placeholder
+                    (_, 2) => vs.claim.value(),
                     _ => json!(ascii!(r, 1 + r.usize(5))),
                 };
                 claims.push(match k.as_str() {
@@ -397,7 +407,20 @@ fn gen(ctx: &GenCtx, i: u64, prop: &str) -> Option<Run> {
     for (pos, m) in schedule.into_iter().enumerate() {
         if Some(pos) == reconf_at {
             // the live parser is re-configured between two parses
-            let op = if prop == "C15" || validators.len() >= 6 || r.chance(1, 2) {
+            let op = if prop == "C16" && !validators.is_empty() && r.chance(1, 2) {
+                // check_claim(k = v) for a key that already has a validator: the validator stays in force
+                let vs = r.pick(&validators).clone();
+                let k = vs.claim.key().to_string();
+                match k.as_str() {
+                    "sub" => VOp::CheckClaim(ClaimSpec::Sub("good".into())),
+                    "aud" => VOp::CheckClaim(ClaimSpec::Aud("good".into())),
+                    "jti" => VOp::CheckClaim(ClaimSpec::Jti("good".into())),
+                    "iss" => VOp::CheckClaim(ClaimSpec::Iss("good".into())),
+                    "exp" => VOp::CheckClaim(ClaimSpec::Exp("2019-01-01T00:00:00+00:00".into())),
+                    "nbf" => VOp::CheckClaim(ClaimSpec::Nbf("2019-01-01T00:00:00+00:00".into())),
+                    _ => VOp::CheckClaim(ClaimSpec::Custom { key: k, value: json!("good") }),
+                }
+            } else if prop == "C15" || validators.len() >= 6 || r.chance(1, 2) {
                 if !expect.is_empty() && r.chance(2, 3) {
                     // same key, other value: the later expectation is the one in force
                     let e = r.pick(&expect).clone();
